@@ -157,12 +157,15 @@ class Interp:
 
     def _mark(self):
         c = self.ctx
-        return (c.pos, len(c.pc), len(c.obligations), dict(c.counters), len(c.muts))
+        return (c.pos, len(c.pc), len(c.obligations), dict(c.counters), len(c.muts),
+                len(self.__dict__.get('call_log', ())))
 
     def _rollback(self, mark, snap):
         c = self.ctx
         snap.restore()
-        pos, npc, nobl, counters, nmuts = mark
+        pos, npc, nobl, counters, nmuts, ncalls = mark
+        if 'call_log' in self.__dict__:
+            del self.call_log[ncalls:]
         del c.pc[npc:]
         del c.obligations[nobl:]
         c.counters = counters
@@ -334,7 +337,13 @@ class Interp:
             return True
         if type(v).__name__ == 'SCharSeq':
             return mk_bool(T(v.n) > 0)
-        if isinstance(v, Sym):
+        if type(v).__name__ == 'SExt':
+            if v.kind in ('boardlist', 'itemlist'):
+                return mk_bool(T(v.fields['n']) > 0)       # a list: true iff non-empty
+            if v.kind in ('socket', 'ssocket', 'queue', 'event', 'file', 'jsonfile', 'thread'):
+                return True                                   # objects without __len__/__bool__
+            raise EngineError(f'truth of an external object of kind {v.kind}')
+        if isinstance(v, (Sym, Mut)):
             raise EngineError(f'truth of {v!r}')
         return bool(v)
 
@@ -381,6 +390,12 @@ class Interp:
         from . import ext as _ext
         if isinstance(a, _ext.SByte1) or isinstance(b, _ext.SByte1):
             return _ext.bytes_eq(self, a, b)
+        if isinstance(a, _ext.SDecoded) or isinstance(b, _ext.SDecoded):
+            d, other = (a, b) if isinstance(a, _ext.SDecoded) else (b, a)
+            return _ext.decoded_eq(self, d, other)
+        if isinstance(a, _ext.SDecodedLower) or isinstance(b, _ext.SDecodedLower):
+            d, other = (a, b) if isinstance(a, _ext.SDecodedLower) else (b, a)
+            return _ext.decoded_lower_eq(self, d, other)
         if isinstance(a, _ext.SChar) or isinstance(b, _ext.SChar):
             ch, other = (a, b) if isinstance(a, _ext.SChar) else (b, a)
             if isinstance(other, _ext.SChar):
@@ -489,6 +504,12 @@ class Interp:
             return self.eq(b, a)
         if isinstance(a, (Sym, Mut)) or isinstance(b, (Sym, Mut)):
             if type(a) is not type(b):
+                if isinstance(a, Sym) and isinstance(b, Sym) and not (
+                        isinstance(a, (SInt, SBool, SEnum, SOpt)) or
+                        isinstance(b, (SInt, SBool, SEnum, SOpt))):
+                    # two symbolic values of different representations may still denote equal
+                    # Python values: never decided by default
+                    raise EngineError(f'eq of {type(a).__name__} and {type(b).__name__}')
                 return False
             raise EngineError(f'eq of {a!r} and {b!r}')
         try:
@@ -1132,6 +1153,9 @@ class Interp:
         if isinstance(obj, SExt) and name in obj.fields:
             return obj.fields[name]
         if isinstance(obj, (SList, SDict, SCardSet, SSeq, SSet, SVec, GList, XStr, SExt, SBytes)):
+            return BuiltinMethod(obj, name)
+        from .ext import SDecoded
+        if isinstance(obj, SDecoded) and name == 'lower':
             return BuiltinMethod(obj, name)
         if isinstance(obj, ExcValue):
             if name == 'args':
